@@ -932,17 +932,16 @@ func listStyleImage(tokens []Token, baseUrl string) (pr.CssProperty, error) {
 	}
 	token := tokens[0]
 
-	if token.Kind() != pa.KFunctionBlock {
-		if getKeyword(token) == "none" {
-			return pr.NoneImage{}, nil
-		}
-		parsedUrl, _, err := getUrl(token, baseUrl)
-		if err != nil {
-			return nil, err
-		}
-		if parsedUrl.Name == "external" {
-			return pr.UrlImage(parsedUrl.String), nil
-		}
+	if getKeyword(token) == "none" {
+		return pr.NoneImage{}, nil
+	}
+	// a quoted url is tokenized as a function : getUrl handles both forms
+	parsedUrl, _, err := getUrl(token, baseUrl)
+	if err != nil {
+		return nil, err
+	}
+	if parsedUrl.Name == "external" {
+		return pr.UrlImage(parsedUrl.String), nil
 	}
 	return nil, nil
 }
